@@ -22,11 +22,19 @@ import FV.Proofs.GlbAlloc
   | `glbfloorA_*` (loop with the allocation    | nothing; `refine` / `must_be_refined` / the constructor are the   |
   |  model of C02/C12 plugged in)              | allocation model's, no hypothesis about them is left              |
 
+  | `glbfloor_correct` (ONE statement about   | `SolverOK`: `SolverPost` + `ConstRespect` of every answer given on |
+  |  the returned value, vs the INPUT netlist) | a state satisfying the loop invariant                            |
+
+  Honest reading of `extract_ratios` / clauses 3-4 of `glbfloor_correct`: "cell total ≤ 1 + tol" and "centre in the die" are
+  the solver hypothesis pushed through FRAME's bookkeeping (threshold filtering cannot increase a row; centres are copied
+  from variables whose bounds are the die) — FRAME's part is proved, the solver's part is assumed and monitored.
+  Remaining start-state hypothesis of `glbfloor_correct`: `ValidAlloc`, cells inside the die, `FixedOwn` (C01/C03 territory).
+
   All statements are over an arbitrary linearly ordered field (exact arithmetic); `Rat`, at which the driver runs
   the same definitions, is one.  IEEE rounding is executed (F stream of the harness), never proved.
 -/
 namespace FV.C10
-open FV FV.Glb
+open FV FV.Glb FV.Alloc
 set_option linter.unusedSectionVars false
 set_option linter.unusedSimpArgs false
 set_option linter.unusedVariables false
@@ -386,9 +394,9 @@ theorem glbfloor_feasible (solve : State α → Option (Answer α)) (mustRefine 
 
 /-! ### the loop with the allocation model plugged in (no hypothesis about `refine` left)
 
-`FV/Model/GlbAlloc.lean` instantiates the loop with `refine := Allocation.refine(threshold)` (`FV.refine env st a thr 1`,
-`levels` defaults to 1 as in `optimization.py`), `must_be_refined := FV.mustBeRefined a thr` and the real constructor
-`Allocation(allocation_list)` (`FV.mkAllocation`) inside `extract_solution` — the model of
+`FV/Model/GlbAlloc.lean` instantiates the loop with `refine := Allocation.refine(threshold)` (`FV.Alloc.refine env st a thr 1`,
+`levels` defaults to 1 as in `optimization.py`), `must_be_refined := FV.Alloc.mustBeRefined a thr` and the real constructor
+`Allocation(allocation_list)` (`FV.Alloc.mkAllocation`) inside `extract_solution` — the model of
 `frame/allocation/allocation.py` of properties C02/C12 (code with their repairs applied).  The only parameter left is the
 solver.  Start: any `ValidAlloc` (what the constructor returns, `FV.C02.constructor_valid`) whose cells lie inside the
 die. -/
@@ -487,6 +495,213 @@ theorem glbfloorA_cells_disjoint (env : Env α) (solve : AState α → Option (A
   have hf : Feasible die 0 init.eps init := ⟨rfl, hv, hin, h0⟩
   exact ⟨fun o ho => feasible_cells (glbfloorA_offered_feasible env solve thr 0 die init o (le_refl _) hf ho),
     fun r hr => feasible_cells (glbfloorA_returned_feasible env solve thr 0 die maxIter fuel init r (le_refl _) hf hr)⟩
+
+/-! ### ONE theorem about the value `glbfloor` returns
+
+All clauses of the property about the value returned by the loop with the allocation model plugged in, against the INPUT
+netlist, across all passes.  Hypotheses: the start (`ValidAlloc`, cells inside the die, `FixedOwn` for the fixed modules:
+what `create_initial_allocation` produces, `FV.C03.fixed_full` — the REMAINING start-state hypothesis, not derived here
+because C03 has its own netlist model); the parameters `0 < thr`, `0 ≤ tol ≤ 1 - thr`, at least one pass; and `SolverOK`:
+every answer the solver gives satisfies `SolverPost` for the state it was asked about, and reads FRAME's constants of
+the fixed modules back (`ConstRespect`).  Which conclusion uses what:
+cells — nothing; ratios in [0,1] — nothing; rows, centres — `SolverPost` of the LAST answer (these two restate it through
+the threshold filter / the centre update: FRAME's contribution is that filtering cannot increase a row and that centres are
+copied from variables it bounded by the die); rigidity against the input — nothing (every pass is a translation/mirror and
+these compose); fixed ownership — `SolverOK` of every pass (it is a loop invariant). -/
+
+/-- `FixedOwn` gives the hypothesis `OfferedFixed` of `fixed_kept`. -/
+theorem offeredFixed_of_fixedOwn (offered : List (RectAlloc α)) (f : Glb.Module α) (h : FixedOwn offered f) :
+    OfferedFixed offered f := by
+  intro c v hv
+  unfold getA at hv
+  cases hoc : offered[c]? with
+  | none => rw [hoc] at hv; cases hv
+  | some ra =>
+    rcases getA_of_fixedOwn offered f h c ra hoc with ⟨_, hg⟩ | ⟨_, _, hg⟩
+    · unfold getA at hg; rw [hg] at hv; left; exact (Option.some.inj hv).symm
+    · unfold getA at hg; rw [hg] at hv; right; exact (Option.some.inj hv).symm
+
+/-- a rigid image of a rigid image is a rigid image: translations / mirrors compose. -/
+theorem rigidImage_trans (a b c : List (Rect α)) (fl : Bool) (h1 : RigidImage a b fl) (h2 : RigidImage b c fl) :
+    RigidImage a c fl := by
+  obtain ⟨sx, sy, tx, ty, hsx, hsy, hf, rfl⟩ := h1
+  obtain ⟨sx', sy', tx', ty', hsx', hsy', hf', rfl⟩ := h2
+  refine ⟨sx' * sx, sy' * sy, sx' * tx + tx', sy' * ty + ty', ?_, ?_, ?_, affine_comp _ _ _ _ _ _ _ _ _⟩
+  · rcases hsx with rfl | rfl <;> rcases hsx' with rfl | rfl <;> simp
+  · rcases hsy with rfl | rfl <;> rcases hsy' with rfl | rfl <;> simp
+  · intro h
+    obtain ⟨a1, a2⟩ := hf h
+    obtain ⟨b1, b2⟩ := hf' h
+    subst a1; subst a2; subst b1; subst b2; simp
+
+theorem rigidImage_refl (rs : List (Rect α)) (fl : Bool) : RigidImage rs rs fl :=
+  ⟨1, 1, 0, 0, Or.inl rfl, Or.inl rfl, fun _ => ⟨rfl, rfl⟩, (affine_id rs).symm⟩
+
+/-- a module of the input netlist and the module at the same position later: same name and flags; a movable hard
+    module is a rigid image (mirrored only if flippable); any other module has literally the same rectangles. -/
+def ModRel (m m' : Glb.Module α) : Prop :=
+  m'.name = m.name ∧ m'.hard = m.hard ∧ m'.fixed = m.fixed ∧ m'.flip = m.flip ∧
+  ((m.hard = true ∧ m.fixed = false) → RigidImage m.rects m'.rects m.flip) ∧
+  (¬(m.hard = true ∧ m.fixed = false) → m'.rects = m.rects)
+
+theorem modRel_refl (m : Glb.Module α) : ModRel m m :=
+  ⟨rfl, rfl, rfl, rfl, fun _ => rigidImage_refl _ _, fun _ => rfl⟩
+
+theorem modRel_trans (a b c : Glb.Module α) (h1 : ModRel a b) (h2 : ModRel b c) : ModRel a c := by
+  obtain ⟨n1, hd1, fx1, fl1, r1, k1⟩ := h1
+  obtain ⟨n2, hd2, fx2, fl2, r2, k2⟩ := h2
+  refine ⟨n2.trans n1, hd2.trans hd1, fx2.trans fx1, fl2.trans fl1, fun hm => ?_, fun hn => ?_⟩
+  · have hb : b.hard = true ∧ b.fixed = false := ⟨hd1 ▸ hm.1, fx1 ▸ hm.2⟩
+    have := r2 hb
+    rw [fl1] at this
+    exact rigidImage_trans _ _ _ _ (r1 hm) this
+  · have hb : ¬(b.hard = true ∧ b.fixed = false) := fun hb => hn ⟨hd1 ▸ hb.1, fx1 ▸ hb.2⟩
+    rw [k2 hb, k1 hn]
+
+/-- one `extract_solution` relates every module to its update. -/
+theorem modRel_step (ans : Answer α) (m m' : Glb.Module α) (h : updateModule ans m = some m') : ModRel m m' := by
+  obtain ⟨_, _, hn, hh, hf, hfl⟩ := updateModule_fields ans m m' h
+  refine ⟨hn, hh, hf, hfl, fun hm => (flip_rigid ans m m' hm.1 hm.2 h).1, fun hn' => ?_⟩
+  unfold updateModule at h
+  have : (m.hard && !m.fixed) = false := by
+    cases hh' : m.hard <;> cases hx : m.fixed <;> simp_all
+  simp only [this, Bool.false_eq_true, if_false, Option.some.injEq] at h
+  rw [← h]
+
+/-- a fixed module whose centre the answer reads back is left literally unchanged. -/
+theorem updateModule_fixed (ans : Answer α) (f : Glb.Module α) (hfix : f.fixed = true) (hx : ans.x f.name = f.cx)
+    (hy : ans.y f.name = f.cy) : updateModule ans f = some f := by
+  unfold updateModule
+  simp only [hfix, Bool.not_true, Bool.and_false, Bool.false_eq_true, if_false, hx, hy]
+  cases f; simp_all
+
+/-- the loop invariant of the composed theorem. -/
+structure GlbInv (die : Rect α) (init s : AState α) : Prop where
+  feasible : Feasible die init.eps.area init.eps s
+  mods : List.Forall₂ ModRel init.mods s.mods
+  fixed : ∀ f ∈ init.mods, f.fixed = true →
+    f ∈ s.mods ∧ FixedOwn (s.alloc.cells.map ofCell) f ∧
+    ∀ c0 ∈ init.alloc.cells, c0.alloc = [(f.name, 1)] → c0.rect.fixed = true →
+      ∃ d ∈ s.alloc.cells, d.rect = c0.rect ∧ d.alloc = [(f.name, 1)]
+
+/-- WHAT IS ASSUMED OF EVERY SOLVER CALL in the composed theorem: the answer satisfies `SolverPost` for the state the
+    solver was asked about (only states satisfying the loop invariant `GlbInv` matter), and FRAME's constants for the fixed modules are read back (`ConstRespect`: by construction
+    of the GEKKO model, checked by the harness on every captured answer). -/
+def SolverOK (solve : AState α → Option (Answer α)) (tol : α) (die : Rect α) (init : AState α) : Prop :=
+  ∀ o ans, GlbInv die init o → solve o = some ans →
+    SolverPost ans tol die o.mods o.alloc.cells.length ∧
+    ∀ f ∈ o.mods, f.fixed = true → ConstRespect ans (o.alloc.cells.map ofCell) f
+
+theorem glbInv_refine (env : Env α) (thr : α) (die : Rect α) (init s r : AState α)
+    (hs : GlbInv die init s) (h : refineA env thr s = some r) : GlbInv die init r := by
+  obtain ⟨r', h1, hf, hm, href⟩ := refineA_spec env thr _ die init.eps s hs.feasible.valid.epsArea hs.feasible
+  rw [h1] at h; cases h
+  refine ⟨hf, hm ▸ hs.mods, fun f hfm hfx => ?_⟩
+  obtain ⟨a1, a2, a3⟩ := hs.fixed f hfm hfx
+  refine ⟨hm ▸ a1, fixedOwn_refines _ _ f href a2, fun c0 hc0 hal hfix => ?_⟩
+  obtain ⟨d, hd, hdr, hda⟩ := a3 c0 hc0 hal hfix
+  exact ⟨d, href.fixed_kept d hd (by rw [hdr]; exact hfix), hdr, hda⟩
+
+theorem glbInv_optimize (env : Env α) (solve : AState α → Option (Answer α)) (thr tol : α) (die : Rect α)
+    (init s r : AState α) (hthr : 0 < thr) (htol0 : 0 ≤ tol) (htol : tol ≤ 1 - thr) (hsol : SolverOK solve tol die init)
+    (hs : GlbInv die init s) (h : optimizeA env solve thr s = some r) : GlbInv die init r := by
+  unfold optimizeA at h
+  cases hsv : solve s with
+  | none => rw [hsv] at h; cases h
+  | some ans =>
+    rw [hsv] at h
+    obtain ⟨post, hcr⟩ := hsol s ans hs hsv
+    obtain ⟨hf, hcells, hex⟩ := extractA_spec env ans thr _ die init.eps s r hs.feasible h
+    obtain ⟨_, hupd⟩ := extractSolution_ok _ _ _ _ _ _ _ hex
+    have hstep := updateModules_spec ans s.mods r.mods hupd
+    have hrects : (s.alloc.cells.map ofCell).map (·.rect) = s.cells := by
+      unfold AState.cells; rw [List.map_map]; rfl
+    have hlen : (s.alloc.cells.map ofCell).length = s.alloc.cells.length := by simp
+    refine ⟨hf, forall₂_trans_of (fun a b c h1 h2 => modRel_trans a b c h1 (modRel_step ans b c h2)) hs.mods hstep,
+      fun f hfm hfx => ?_⟩
+    obtain ⟨a1, a2, a3⟩ := hs.fixed f hfm hfx
+    have cr := hcr f a1 hfx
+    have hnn : ∀ m ∈ s.mods, ∀ c < (s.alloc.cells.map ofCell).length, 0 ≤ ans.a m.name c :=
+      fun m hm c hc => (post.bounds m hm c (hlen ▸ hc)).1
+    have hrow : ∀ c < (s.alloc.cells.map ofCell).length, (s.mods.map fun m => ans.a m.name c).sum ≤ 1 + tol :=
+      fun c hc => post.rows c (hlen ▸ hc)
+    have hcells' : r.alloc.cells.map ofCell = allocList ans thr s.mods ((s.alloc.cells.map ofCell).map (·.rect)) := by
+      rw [hcells, map_ofCell_toCell, hrects]
+    refine ⟨?_, ?_, fun c0 hc0 hal hfix => ?_⟩
+    · obtain ⟨m', hm', hu⟩ := forall₂_mem_left hstep f a1
+      rw [updateModule_fixed ans f hfx cr.x cr.y] at hu
+      cases hu; exact hm'
+    · rw [hcells']
+      exact fixedOwn_extract ans thr tol s.mods _ f hthr htol0 htol a1 hnn hrow cr.a a2
+    · obtain ⟨d, hd, hdr, hda⟩ := a3 c0 hc0 hal hfix
+      obtain ⟨ra, hra, hr1, hr2⟩ := owned_kept_extract ans thr tol s.mods _ f hthr htol a1 hnn hrow cr.a (ofCell d)
+        (List.mem_map.mpr ⟨d, hd, rfl⟩) hda
+      rw [← hcells'] at hra
+      obtain ⟨d', hd', rfl⟩ := List.mem_map.mp hra
+      exact ⟨d', hd', hr1.trans hdr, hr2⟩
+
+/-- **C10 as one statement about the value `glbfloor` returns** (loop with the allocation model plugged in, at
+    least one pass allowed).  Start: a valid allocation inside the die on which the fixed modules own their cells.
+    Solver: `SolverOK`.  Then, for the returned allocation `r.alloc` and netlist `r.mods`:
+    1. cells pairwise overlap ≤ the area tolerance and lie inside the die;
+    2. no returned cell is empty and every listed ratio is in `[0,1]`;
+    3. every cell's total is at most `1 + tol`;
+    4. every module centre lies in the die;
+    5. against the INPUT netlist, position by position: same names and flags; every movable hard module is a
+       translation/mirror image of its input rectangles (mirror only if flippable); every other module has the same
+       rectangles;  6. the reported centre of a movable hard module is the centroid of its rectangles;
+    7. every fixed module of the input is in the returned netlist unchanged (rectangles and centre), every returned
+       cell is exactly `{f ↦ 1}` or does not list `f` and does not overlap its rectangles, and each cell it owned at
+       the start is still there with `{f ↦ 1}`. -/
+theorem glbfloor_correct (env : Env α) (solve : AState α → Option (Answer α)) (thr tol : α) (die : Rect α)
+    (maxIter : Option Nat) (fuel : Nat) (init r : AState α)
+    (hv : ValidAlloc init.eps init.alloc) (hin : ∀ c ∈ init.alloc.cells, c.rect.isInside die = true)
+    (hown : ∀ f ∈ init.mods, f.fixed = true → FixedOwn (init.alloc.cells.map ofCell) f)
+    (hthr : 0 < thr) (htol0 : 0 ≤ tol) (htol : tol ≤ 1 - thr) (hlim : maxIter ≠ some 0)
+    (hsol : SolverOK solve tol die init)
+    (h : glbfloorA env solve thr maxIter fuel init = some r) :
+    CellsFeasible die init.eps.area r ∧
+    (∀ c ∈ r.alloc.cells, c.alloc ≠ [] ∧ ∀ p ∈ c.alloc, 0 ≤ p.2 ∧ p.2 ≤ 1) ∧
+    (∀ c ∈ r.alloc.cells, (c.alloc.map (·.2)).sum ≤ 1 + tol) ∧
+    (∀ m ∈ r.mods, InDie die m.cx m.cy) ∧
+    List.Forall₂ ModRel init.mods r.mods ∧
+    (∀ m ∈ r.mods, m.hard = true → m.fixed = false → IsCentroid m.rects m.cx m.cy) ∧
+    (∀ f ∈ init.mods, f.fixed = true →
+      f ∈ r.mods ∧ FixedOwn (r.alloc.cells.map ofCell) f ∧
+      ∀ c0 ∈ init.alloc.cells, c0.alloc = [(f.name, 1)] → c0.rect.fixed = true →
+        ∃ d ∈ r.alloc.cells, d.rect = c0.rect ∧ d.alloc = [(f.name, 1)]) := by
+  have h0 : Feasible die init.eps.area init.eps init := ⟨rfl, hv, hin, hv.cells.noOverlap⟩
+  have hinv0 : GlbInv die init init :=
+    ⟨h0, forall₂_refl_of modRel_refl _, fun f hf hfx => ⟨hf, hown f hf hfx, fun c0 hc0 hal _ => ⟨c0, hc0, rfl, hal⟩⟩⟩
+  have hinv : GlbInv die init r :=
+    loopG_invariant _ _ _ maxIter (GlbInv die init)
+      (fun s r hs hr => glbInv_refine env thr die init s r hs hr)
+      (fun s r hs hr => glbInv_optimize env solve thr tol die init s r hthr htol0 htol hsol hs hr) fuel 1 init r hinv0 h
+  obtain ⟨o, ans, hoff, hfo, hsv, hex⟩ :=
+    glbfloorA_returns_extracted env solve thr _ die maxIter fuel init r hv.epsArea h0 hlim h
+  have hinvo : GlbInv die init o :=
+    hoff.inv (GlbInv die init) hinv0 (fun s r hs hr => glbInv_refine env thr die init s r hs hr)
+      (fun s r hs hr => glbInv_optimize env solve thr tol die init s r hthr htol0 htol hsol hs hr)
+  obtain ⟨post, _⟩ := hsol o ans hinvo hsv
+  have hlen : o.cells.length = o.alloc.cells.length := by unfold AState.cells; simp
+  obtain ⟨_, hrange⟩ := extract_ratio_range ans _ thr o.mods o.cells _ _ hex
+  obtain ⟨_, hrows, hcentres⟩ := extract_ratios ans _ thr tol die o.mods o.cells _ _ (hlen ▸ post) hex
+  obtain ⟨hlenm, hrig⟩ := extract_hard_rigid ans _ thr o.mods o.cells _ _ hex
+  refine ⟨feasible_cells hinv.feasible, ?_, ?_, hcentres, hinv.mods, ?_, hinv.fixed⟩
+  · intro c hc
+    have := hrange (ofCell c) (List.mem_map.mpr ⟨c, hc, rfl⟩)
+    exact ⟨this.1, fun p hp => ⟨(this.2 p hp).1, (this.2 p hp).2.1⟩⟩
+  · intro c hc
+    exact hrows (ofCell c) (List.mem_map.mpr ⟨c, hc, rfl⟩)
+  · intro m' hm' hh hnf
+    obtain ⟨i, hi, rfl⟩ := List.getElem_of_mem hm'
+    have hi' : i < o.mods.length := hlenm ▸ hi
+    have hm := hrig i o.mods[i] r.mods[i] (by rw [List.getElem?_eq_getElem hi']) (by rw [List.getElem?_eq_getElem hi])
+    obtain ⟨_, hupd⟩ := extractSolution_ok _ _ _ _ _ _ _ hex
+    have hu := forall₂_get (updateModules_spec ans o.mods r.mods hupd) i o.mods[i] r.mods[i]
+      (by rw [List.getElem?_eq_getElem hi']) (by rw [List.getElem?_eq_getElem hi])
+    obtain ⟨_, _, _, hh', hf', _⟩ := updateModule_fields ans _ _ hu
+    exact (hm.1 (hh' ▸ hh) (hf' ▸ hnf)).2
 
 /-! ### non-vacuity: concrete instances meet the hypotheses -/
 
